@@ -150,8 +150,13 @@ def run(d, harnesses, timeout_s=900, jobs=16, extra=None, package_dir='statime',
         cmd += ['--harness', h]
     env = dict(os.environ, CARGO_NET_OFFLINE='true', CARGO_TARGET_DIR=os.path.join(d, 'target'))
     t0 = time.time()
+    def _limits():
+        import resource
+        os.setsid()
+        lim = int(os.environ.get('VERIF_MEM_GB', '24')) << 30
+        resource.setrlimit(resource.RLIMIT_AS, (lim, lim))
     p = subprocess.Popen(cmd, cwd=os.path.join(d, package_dir), env=env, stdout=subprocess.PIPE,
-                         stderr=subprocess.STDOUT, text=True, start_new_session=True)
+                         stderr=subprocess.STDOUT, text=True, preexec_fn=_limits)
     try:
         out, _ = p.communicate(timeout=timeout_s)
         timed_out = False
